@@ -366,6 +366,10 @@ def r3_replay_from_originals(ctx):
     g = ctx.cfg(f)
     heads = [n for n in g.nodes if n.kind == 'for' and
              '_mutators' in unparse(n.ast.iter)]
+    # a comprehension over self._mutators is the same replay
+    heads += [n for n in g.nodes if n.kind != 'for' and any(
+        isinstance(a, ast.comprehension) and '_mutators' in unparse(a.iter)
+        for a in n.walk())]
     ctx.floor('loops over self._mutators in to_sql', len(heads), 1)
     for attr, orig in (('project_sig', '_orig_project_sig'),
                        ('database_state', '_orig_database_state')):
